@@ -279,6 +279,72 @@ example : ∃ x : ℝ → DVec ℝ, LCurve 3 x [1, 0, 2] ∧ (2:ℝ)^(-52:ℤ) <
       apply Real.le_sqrt_of_sq_le; norm_num
     exact lt_of_lt_of_le h1 h2
 
+/-- **`se3_Exp.backward` multiplies by the true derivative** on the closed-form branches (`θ > eps` for `so3_Jl`,
+`θ > 0.05` for `calcQ`): a curve `x(t) = (τ(t); φ(t))` with velocity `d` is mapped to a curve in `SE3` with
+left-perturbation tangent `se3_Jl(x(0))·d`.  The translation block is the statement that `calcQ` is the derivative of
+`so3_Jl(φ)·τ` with respect to `φ` (up to the lever-arm term) — the block the D25 repair touched. -/
+theorem se3_Exp_tangent (eps : ℝ) (heps : 0 ≤ eps) (x : ℝ → DVec ℝ) (d0 d1 d2 d3 d4 d5 : ℝ)
+    (hx : LCurve 6 x [d0, d1, d2, d3, d4, d5]) (hth : eps < (v3 (x 0) 3).norm) (hq : (5:ℝ)/100 < (v3 (x 0) 3).norm) :
+    GTangent .SE3 (fun t => expF .SE3 eps (x t)) ((JlMat .SE3 eps (x 0)).mulVec [d0, d1, d2, d3, d4, d5]) :=
+  se3Exp_tangent eps heps x d0 d1 d2 d3 d4 d5 hx hth hq
+
+/-- non-vacuity: the constant-velocity curve `x(t) = (1 + t, 0, 2, 0.3, -0.2 + t, 0.5)`, `‖φ(0)‖ ≥ 0.3 > 0.05` -/
+example : ∃ x : ℝ → DVec ℝ, LCurve 6 x [1, 0, 0, 0, 1, 0] ∧ (5:ℝ)/100 < (v3 (x 0) 3).norm := by
+  refine ⟨fun t => [1 + t, 0, 2, 0.3, -0.2 + t, 0.5], ?_, ?_⟩
+  · intro i hi
+    interval_cases i
+    · simpa using ((hasDerivAt_id (0:ℝ)).const_add (1:ℝ))
+    · simpa using (hasDerivAt_const (0:ℝ) (0:ℝ))
+    · simpa using (hasDerivAt_const (0:ℝ) (2:ℝ))
+    · simpa using (hasDerivAt_const (0:ℝ) (0.3:ℝ))
+    · simpa using ((hasDerivAt_id (0:ℝ)).const_add (-0.2:ℝ))
+    · simpa using (hasDerivAt_const (0:ℝ) (0.5:ℝ))
+  · have h2 : (0.3:ℝ) ≤ (v3 ([1 + 0, 0, 2, 0.3, -0.2 + 0, 0.5] : DVec ℝ) 3).norm := by
+      simp only [Vec3.norm, Vec3.normSq, v3, nth_cons_zero, nth_cons_succ]
+      apply Real.le_sqrt_of_sq_le; norm_num
+    exact lt_of_lt_of_le (by norm_num) h2
+
+/-- **`SO3_Log.backward` multiplies by the true derivative** (regime 1 of the logarithm: `‖v‖ > eps`, `|w| > eps`, both
+hemispheres; closed-form branch of `so3_Jl_inv`): a curve of unit quaternions with left-perturbation tangent `τ` is mapped
+to a curve in `so3` with velocity `so3_Jl_inv(Log X(0))·τ`. -/
+theorem SO3_Log_tangent (eps : ℝ) (heps : 0 ≤ eps) (X : ℝ → DVec ℝ) (a0 a1 a2 : ℝ)
+    (hX : GTangent .SO3 X [a0, a1, a2]) (hu : UnitQ .SO3 (X 0))
+    (hv : eps < (qt (X 0)).vec.norm) (hw : eps < |(qt (X 0)).w|) (hφ : eps < (v3 (logF .SO3 eps (X 0))).norm) :
+    LCurve 3 (fun t => logF .SO3 eps (X t)) ((JlInvMat .SO3 eps (logF .SO3 eps (X 0))).mulVec [a0, a1, a2]) :=
+  SO3Log_tangent eps heps X a0 a1 a2 hX hu hv hw hφ
+
+/-- non-vacuity of `SO3_Log_tangent` (at `eps = 0`): the unit quaternion `(0.6, 0, 0, 0.8)` is in regime 1 and its
+logarithm is not zero -/
+example : (0:ℝ) < (qt ([0.6, 0, 0, 0.8] : DVec ℝ)).vec.norm ∧ (0:ℝ) < |(qt ([0.6, 0, 0, 0.8] : DVec ℝ)).w| ∧
+    (0:ℝ) < (v3 (logF .SO3 0 [0.6, 0, 0, 0.8])).norm := by
+  have hn : (qt ([0.6, 0, 0, 0.8] : DVec ℝ)).vec.norm = Real.sqrt 0.36 := by
+    simp [Vec3.norm, Vec3.normSq, Quat.vec, qt]; norm_num
+  have hpos : (0:ℝ) < Real.sqrt 0.36 := Real.sqrt_pos.mpr (by norm_num)
+  have hw : (0:ℝ) < |(qt ([0.6, 0, 0, 0.8] : DVec ℝ)).w| := by simp [qt]; norm_num
+  refine ⟨by rw [hn]; exact hpos, hw, ?_⟩
+  have h1 : (0:ℝ) < (qt ([0.6, 0, 0, 0.8] : DVec ℝ)).vec.norm := by rw [hn]; exact hpos
+  simp only [logF, SO3Log_regime1 0 _ h1 hw, hn]
+  simp only [Vec3.norm, Vec3.normSq, v3, Vec3.smul, Vec3.toList, Quat.vec, qt, nth_cons_zero, nth_cons_succ, sqrt_real]
+  apply Real.sqrt_pos.mpr
+  have hA : Real.arctan (Real.sqrt 0.36 / 0.8) ≠ 0 := by
+    rw [Ne, Real.arctan_eq_zero_iff]; exact ne_of_gt (div_pos hpos (by norm_num))
+  have hF : 2 * Real.arctan (Real.sqrt 0.36 / 0.8) / Real.sqrt 0.36 ≠ 0 := by
+    apply div_ne_zero (mul_ne_zero (by norm_num) hA) (ne_of_gt hpos)
+  have : (0:ℝ) < (2 * Real.arctan (Real.sqrt 0.36 / 0.8) / Real.sqrt 0.36 * 0.6) ^ 2 := by positivity
+  nlinarith [this]
+
+/-- **`Exp₁` agrees with the true retraction** (`SO3`): the curve `t ↦ so3_Exp(t·τ) @ X`, along which the property defines
+`X.grad`, passes through `X` with exactly the velocity `liftG` that all local theorems use. -/
+theorem SO3_retraction_tangent (eps : ℝ) (heps : 0 < eps) (X τ : DVec ℝ) (hX : X.length = 4) (hτ : τ.length = 3) :
+    GTangent .SO3 (fun t => retrF .SO3 eps X [t * nth τ 0, t * nth τ 1, t * nth τ 2]) τ :=
+  retr_tangent_SO3 eps heps X τ hX hτ
+
+/-- `so3_Jl(x)·so3_Jl_inv(x) = 1` on the closed-form branch: the matrices of `so3_Exp.backward` and `SO3_Log.backward` are
+inverse to each other (whenever `sin(θ/2) ≠ 0`, i.e. away from `θ = 2π, 4π, …`) -/
+theorem so3_Jl_mul_JlInv (eps : ℝ) (x : Vec3 ℝ) (h : eps < x.norm) (h0 : 0 ≤ eps) (hs : Real.sin (1/2 * x.norm) ≠ 0) :
+    (so3Jl eps x).mul (so3JlInv eps x) = Mat3.one :=
+  so3Jl_mul_so3JlInv eps x h h0 hs
+
 /-! ## 3. Chain rule for all programs -/
 
 /-- **Reverse mode = transpose of forward mode, for every program.**  `lt` are the leaf types, `env` the leaf values,
@@ -336,8 +402,8 @@ theorem gradient_exact_algebraic (dJ : DJ ℝ) (hdJ : DJShape dJ) (eps : ℝ) (l
 
 /-- **All programs (incl. `Exp`, `Log`, `Jinvp`), partial**: the chain rule is proved; what is assumed (`TransSpec`) is
 local correctness of the transcendental nodes at their positions.  Proved instances of that hypothesis: `so3` `Exp`
-nodes on the closed-form branch (`so3_Exp_node`).  For `se3`/`rxso3`/`sim3` `Exp`, every `Log` and `Jinvp` it is not
-proved in Lean (for `sim3` it holds only up to the documented truncation, §6) and rides on the 192-bit finite-difference
+nodes on the closed-form branch (`so3_Exp_node`), `se3` `Exp` nodes on the closed-form branches (`se3_Exp_node`) and
+`SO3` `Log` nodes in regime 1 (`so3_Log_node`).  For `rxso3`/`sim3` `Exp`, the other `Log`s and `Jinvp` it is not proved in Lean (for `sim3` it holds only up to the documented truncation, §6) and rides on the 192-bit finite-difference
 oracle of the check. -/
 theorem gradient_exact_partial (dJ : DJ ℝ) (hdJ : DJShape dJ) (eps : ℝ) (lt : List Ty) (env : ℝ → List (DVec ℝ))
     (tan : List (DVec ℝ)) (hE : EnvOK lt (env 0) tan)
@@ -358,6 +424,21 @@ theorem so3_Exp_node (dJ : DJ ℝ) (eps : ℝ) (heps : 0 ≤ eps) (lt : List Ty)
     (p : Prog) (hp : NodeOK dJ eps lt env tan p) (hth : eps < (v3 (eval eps (env 0) p)).norm) :
     NodeOK dJ eps lt env tan (.un .Exp .SO3 p) :=
   so3_Exp_nodeOK dJ eps heps lt env tan p hp hth
+
+/-- an `se3` `Exp` node on the closed-form branches satisfies its `TransSpec` obligation -/
+theorem se3_Exp_node (dJ : DJ ℝ) (eps : ℝ) (heps : 0 ≤ eps) (lt : List Ty) (env : ℝ → List (DVec ℝ)) (tan : List (DVec ℝ))
+    (p : Prog) (hp : NodeOK dJ eps lt env tan p) (hth : eps < (v3 (eval eps (env 0) p) 3).norm)
+    (hq : (5:ℝ)/100 < (v3 (eval eps (env 0) p) 3).norm) :
+    NodeOK dJ eps lt env tan (.un .Exp .SE3 p) :=
+  se3_Exp_nodeOK dJ eps heps lt env tan p hp hth hq
+
+/-- an `SO3` `Log` node in regime 1 satisfies its `TransSpec` obligation -/
+theorem so3_Log_node (dJ : DJ ℝ) (eps : ℝ) (heps : 0 ≤ eps) (lt : List Ty) (env : ℝ → List (DVec ℝ)) (tan : List (DVec ℝ))
+    (p : Prog) (hp : NodeOK dJ eps lt env tan p)
+    (hv : eps < (qt (eval eps (env 0) p)).vec.norm) (hw : eps < |(qt (eval eps (env 0) p)).w|)
+    (hφ : eps < (v3 (logF .SO3 eps (eval eps (env 0) p))).norm) :
+    NodeOK dJ eps lt env tan (.un .Log .SO3 p) :=
+  so3_Log_nodeOK dJ eps heps lt env tan p hp hv hw hφ
 
 /-- non-vacuity of `CurveOK` at a group type: the affine curve through the unit quaternion `(0.6,0,0,0.8)` -/
 example : CurveOK (.G .SO3) (affine .SO3 [0.6, 0, 0, 0.8] [0.3, -0.2, 0.5]) [0.3, -0.2, 0.5] :=
